@@ -11,6 +11,7 @@ Races: a create is one transaction = one `step` of the model; interleavings of c
 are the orders of their steps, and the second one sees the first one's row (`C12_create_conflict`).
 -/
 import Mmmbbb.Model.Api
+import Mmmbbb.Proofs.Paging
 import Mmmbbb.Proofs.Fields
 namespace Mmmbbb.Api
 
@@ -176,12 +177,47 @@ theorem C12_page_sound {α} (key : α → Id) (p : α → Bool) (rows : List α)
   refine ⟨h1, h2.1, ?_, ?_⟩
   · intro a ha
     subst ha
-    simpa using h2.2
+    simpa [afterPred] using h2.2
   · simp only [List.length_take]; omega
 
 /-- **C12 (page size)**: `pageSize ≤ 0` and `pageSize ≥ 100` mean 100; anything between is taken as is -/
 theorem C12_page_size (n : Int) :
     effPageSize n 100 = if 0 < n ∧ n < 100 then n.toNat else 100 := by
   unfold effPageSize; split <;> rfl
+
+/-- **C12 (paging visits every item exactly once)**: with a positive page size and ids as primary
+    keys, following the page tokens from the first page — whatever the page size — yields exactly
+    the selected rows (prefix of the project and kind, live), each once, in id order: no item is
+    skipped, none repeated, and the walk ends (the last page carries no token) after at most
+    `rows.length + 1` requests. -/
+theorem C12_walk_exactly_once {α} (key : α → Id) (p : α → Bool) (rows : List α) (size : Nat) (hsize : 0 < size)
+    (hkeys : rows.Pairwise (fun a b => key a ≠ key b)) :
+    walk key p rows size (rows.length + 1) none = sortId key (rows.filter p) ∧
+    (∀ x, x ∈ walk key p rows size (rows.length + 1) none ↔ x ∈ rows ∧ p x = true) ∧
+    (walk key p rows size (rows.length + 1) none).Pairwise (fun a b => key a < key b) := by
+  have hlen : ((sortId key (rows.filter p)).filter (afterPred key none)).length < rows.length + 1 := by
+    have h1 : ((sortId key (rows.filter p)).filter (afterPred key none)).length ≤ (sortId key (rows.filter p)).length :=
+      List.length_filter_le _ _
+    have h2 : (sortId key (rows.filter p)).length = (rows.filter p).length := by
+      generalize rows.filter p = l
+      induction l with
+      | nil => rfl
+      | cons a r ih =>
+        show (insertId key a (sortId key r)).length = _
+        have : ∀ (m : List α), (insertId key a m).length = m.length + 1 := by
+          intro m
+          induction m with
+          | nil => rfl
+          | cons c m' ihm => unfold insertId; split <;> simp [ihm]
+        rw [this, ih]; rfl
+    have h3 : (rows.filter p).length ≤ rows.length := List.length_filter_le _ _
+    omega
+  have hw := walk_spec key p rows size hsize hkeys (rows.length + 1) none hlen
+  have hnone : (sortId key (rows.filter p)).filter (afterPred key none) = sortId key (rows.filter p) := by
+    apply List.filter_eq_self.mpr; intro x _; rfl
+  rw [hnone] at hw
+  refine ⟨hw, ?_, ?_⟩
+  · intro x; rw [hw, mem_sortId']; simp [List.mem_filter]
+  · rw [hw]; exact sortedLt_sortId key _ (hkeys.sublist List.filter_sublist)
 
 end Mmmbbb.Api
